@@ -1,6 +1,8 @@
 // Generator of frame histories from an abstract alphabet (DESIGN.md C17 / C18 / C02 / C04 prior histories).
 #pragma once
 
+#include <array>
+
 #include <map>
 
 #include "frames.h"
@@ -17,6 +19,8 @@ struct HistoryGenParams
     bool allowTecmp{true};
     bool closeAtEnd{false};      // append one unsegmented frame per endpoint (closing traffic)
     uint32_t maxSegLen{64};
+    int bigSegmentHistories{0};  // N > 0: one history in N uses segments of 20000..65535 bytes on one or two endpoints, so that
+                                 // accumulated messages cross the 65535 bytes a 16-bit length can describe
 };
 
 struct GenEndpointState
@@ -60,40 +64,47 @@ inline Bytes tecmpSample(uint32_t seed)
     return b;
 }
 
+// Endpoint alphabets: either the plain set {1,2} x {0,5}, or a base endpoint plus endpoints that differ from it in a way an
+// endpoint key / hash / comparison could confuse (one byte changed, ids packed with overlapping shifts, swapped bytes).
+inline std::array<std::pair<uint16_t, uint8_t>, 4> genEndpointAlphabet()
+{
+    std::array<std::pair<uint16_t, uint8_t>, 4> alphabet = {{{1, 0}, {1, 5}, {2, 0}, {2, 5}}};
+    if (*range<int>(0, 2) == 0)
+    {
+        uint16_t d = *rc::gen::element<uint16_t>(0x0001, 0x0101, 0x0200, 0x00FF, 0xFF00, 0xFFFF, 0x1234);
+        uint8_t st = *rc::gen::element<uint8_t>(0, 1, 2, 0xFF);
+        std::vector<std::pair<uint16_t, uint8_t>> rel = {
+            {static_cast<uint16_t>(d ^ 0x0100), st},                                             // high device byte differs
+            {static_cast<uint16_t>(d ^ 0x0001), st},                                             // low device byte differs
+            {d, static_cast<uint8_t>(st ^ 1)},                                                   // stream differs
+            {static_cast<uint16_t>(d | (st << 8)), 0},                                           // same value when packed as dev | stream << 8
+            {static_cast<uint16_t>(d & 0x00FF), static_cast<uint8_t>((d >> 8) | st)},            // same value when packed as dev | stream << 8
+            {static_cast<uint16_t>((d << 8) | (d >> 8)), st},                                    // device bytes swapped
+            {static_cast<uint16_t>(st), static_cast<uint8_t>(d)},                                // ids exchanged
+            {static_cast<uint16_t>(d + 0x0100), static_cast<uint8_t>(st - 1)}};                  // same sum / xor style keys
+        alphabet[0] = {d, st};
+        for (int k = 1; k < 4; ++k)
+        {
+            size_t pick = *range<size_t>(0, rel.size() - 1);
+            alphabet[k] = rel[pick];
+            rel.erase(rel.begin() + static_cast<long>(pick));
+        }
+        // endpoints must be pairwise distinct
+        for (int a = 0; a < 4; ++a)
+            for (int b = 0; b < a; ++b)
+                if (alphabet[a] == alphabet[b])
+                    alphabet[a].second = static_cast<uint8_t>(alphabet[a].second + 16 + a);
+    }
+    return alphabet;
+}
+
 inline rc::Gen<FrameHistory> genFrameHistory(const HistoryGenParams& params)
 {
     return rc::gen::exec([params]() {
         FrameHistory hist;
-        // endpoints: either the plain set {1,2} x {0,5}, or a base endpoint plus endpoints that differ from it in a way an
-        // endpoint key / hash / comparison could confuse (one byte changed, ids packed with overlapping shifts, swapped bytes)
-        std::pair<uint16_t, uint8_t> alphabet[4] = {{1, 0}, {1, 5}, {2, 0}, {2, 5}};
-        if (*range<int>(0, 2) == 0)
-        {
-            uint16_t d = *rc::gen::element<uint16_t>(0x0001, 0x0101, 0x0200, 0x00FF, 0xFF00, 0xFFFF, 0x1234);
-            uint8_t st = *rc::gen::element<uint8_t>(0, 1, 2, 0xFF);
-            std::vector<std::pair<uint16_t, uint8_t>> rel = {
-                {static_cast<uint16_t>(d ^ 0x0100), st},                                             // high device byte differs
-                {static_cast<uint16_t>(d ^ 0x0001), st},                                             // low device byte differs
-                {d, static_cast<uint8_t>(st ^ 1)},                                                   // stream differs
-                {static_cast<uint16_t>(d | (st << 8)), 0},                                           // same value when packed as dev | stream << 8
-                {static_cast<uint16_t>(d & 0x00FF), static_cast<uint8_t>((d >> 8) | st)},            // same value when packed as dev | stream << 8
-                {static_cast<uint16_t>((d << 8) | (d >> 8)), st},                                    // device bytes swapped
-                {static_cast<uint16_t>(st), static_cast<uint8_t>(d)},                                // ids exchanged
-                {static_cast<uint16_t>(d + 0x0100), static_cast<uint8_t>(st - 1)}};                  // same sum / xor style keys
-            alphabet[0] = {d, st};
-            for (int k = 1; k < 4; ++k)
-            {
-                size_t pick = *range<size_t>(0, rel.size() - 1);
-                alphabet[k] = rel[pick];
-                rel.erase(rel.begin() + static_cast<long>(pick));
-            }
-            // endpoints must be pairwise distinct
-            for (int a = 0; a < 4; ++a)
-                for (int b = 0; b < a; ++b)
-                    if (alphabet[a] == alphabet[b])
-                        alphabet[a].second = static_cast<uint8_t>(alphabet[a].second + 16 + a);
-        }
-        int nEp = *range<int>(1, std::min(params.endpoints, 4));
+        auto alphabet = genEndpointAlphabet();
+        const bool big = params.bigSegmentHistories > 0 && *range<int>(0, params.bigSegmentHistories - 1) == 0;
+        int nEp = *range<int>(1, big ? 2 : std::min(params.endpoints, 4));
         std::vector<GenEndpointState> st(static_cast<size_t>(nEp));
         int n = *range<int>(1, params.maxFrames);
         for (int i = 0; i < n; ++i)
@@ -113,7 +124,8 @@ inline rc::Gen<FrameHistory> genFrameHistory(const HistoryGenParams& params)
             f.seq = s.nextSeq;
             // shapes: 0 unsegmented, 1 first, 2 matching intermediary, 3 matching last, 4 mismatching continuation,
             // 5 invalid message, 6 TECMP, 7 short buffer, 8 header-only, 9 garbage, 10 mixed (unsegmented + segment)
-            int shape = *rc::gen::weightedElement<int>({{4, 0}, {5, 1}, {5, 2}, {5, 3}, {3, 4}, {3, 5},
+            int shape = big ? *rc::gen::weightedElement<int>({{1, 0}, {4, 1}, {9, 2}, {4, 3}, {1, 4}, {1, 5}})
+                            : *rc::gen::weightedElement<int>({{4, 0}, {5, 1}, {5, 2}, {5, 3}, {3, 4}, {3, 5},
                                                         {size_t(params.allowTecmp), 6}, {1, 7},
                                                         {size_t(params.allowHeaderOnly), 8},
                                                         {size_t(params.allowGarbage), 9}, {size_t(params.allowGarbage), 10}});
@@ -229,6 +241,8 @@ inline rc::Gen<FrameHistory> genFrameHistory(const HistoryGenParams& params)
                     f.trailing[13] = 0;
                 }
             }
+            if (big && shape >= 1 && shape <= 3 && !f.msgs.empty())
+                f.msgs.back().len = *rc::gen::weightedOneOf<uint32_t>({{4, range<uint32_t>(20000, 40000)}, {1, range<uint32_t>(60000, 65535)}, {1, range<uint32_t>(600, 1500)}});
             if (advance)
                 s.nextSeq = static_cast<uint16_t>(f.seq + 1);
             hist.frames.push_back(std::move(f));
